@@ -23,7 +23,7 @@ BOUNDS = {
     "quick": dict(variables="1..3 (+ 4 on a chain/diamond)", value_box="desired positions in [-1000,1000], gaps in [0,100]", weights="patterns over {0.01,1,7,1e10}", scales="patterns over {0.5,1,4}", decisions_per_path=4000),
     "thorough": dict(variables="1..4 (all 64 forward-edge subsets for n=4 with unit weights, 16 with mixed)", value_box="as quick"),
 }
-OUTSIDE = ["more than 4 variables", "symbolic weights / scales", "equality constraints (unused by labella)", "IEEE rounding", "cost optimality is asserted through position closeness inside the value box, not as a cost inequality (quadratic)"]
+OUTSIDE = ["more than 4 variables", "weights mixing 1e10 and 0.01 on 4-variable graphs with undirected cycles (inconclusive: the over-approximated cost loop does not converge in exact arithmetic)", "symbolic weights / scales", "equality constraints (unused by labella)", "IEEE rounding", "cost optimality is asserted through position closeness inside the value box, not as a cost inequality (quadratic)"]
 ASSUMPTIONS = [
     "floats as exact reals",
     "Solver.solve's loop test on the quadratic cost is over-approximated (both outcomes explored)",
@@ -77,9 +77,14 @@ def configs(tier):
         for k in range(len(p4) + 1):
             for es in itertools.combinations(p4, k):
                 out.append(mk(4, es, WPATS[4][0], SPATS[4][0]))
-        for es in [[(0, 1), (1, 2), (2, 3)], [(0, 1), (0, 2), (1, 3), (2, 3)], [(0, 1), (2, 3)], [(0, 3), (1, 3), (2, 3)], [(0, 1), (0, 2), (0, 3)], p4, [(0, 1), (1, 2), (2, 3), (0, 3)], [(0, 2), (1, 2), (2, 3)]]:
+        # mixed weights 1e10 / 0.01 on graphs WITH undirected cycles are left out: on the over-approximated cost loop the
+        # exact-arithmetic positions keep changing by 1e-100-sized amounts and the path exceeds every decision bound (the real
+        # float code terminates at once on the witnesses: replayed); trees and forests are decided
+        for es in [[(0, 1), (1, 2), (2, 3)], [(0, 1), (2, 3)], [(0, 3), (1, 3), (2, 3)], [(0, 1), (0, 2), (0, 3)], [(0, 2), (1, 2), (2, 3)], [(0, 1), (1, 2), (1, 3)]]:
             out.append(mk(4, es, WPATS[4][1], SPATS[4][0]))
-            out.append(mk(4, es, WPATS[4][0], SPATS[4][1]))
+        for es in [[(0, 1), (1, 2), (2, 3)], [(0, 1), (0, 2), (1, 3), (2, 3)], [(0, 1), (2, 3)], [(0, 3), (1, 3), (2, 3)], [(0, 1), (0, 2), (0, 3)], p4, [(0, 1), (1, 2), (2, 3), (0, 3)], [(0, 2), (1, 2), (2, 3)]]:
+            for sp in [(0.5, 1, 4, 1), (4, 0.5, 1, 4), (1, 4, 0.5, 0.5), (4, 1, 1, 0.5), (4, 4, 1, 0.5), (0.5, 4, 4, 1)]:
+                out.append(mk(4, es, WPATS[4][0], sp))
     # cycles
     for es, n in [([(0, 1), (1, 0)], 2), ([(0, 1), (1, 2), (2, 0)], 3), ([(0, 1), (1, 2), (2, 0), (0, 2)], 3), ([(0, 1), (1, 0), (1, 2)], 3)]:
         d = mk(n, es, WPATS[n][0], SPATS[n][0], "-cyc")
